@@ -87,6 +87,21 @@ Theorem C20_no_response_without_request :
 Proof. exact no_spurious_response. Qed.
 Print Assumptions C20_no_response_without_request.
 
+(** Context cancellation.  Schedules may contain [Cancel c] steps anywhere (every theorem above and
+    below quantifies over them).  On the code as it is, Pull never looks at its context while it
+    waits, so a cancel changes nothing: the caller stays registered and - by (b) - is answered by the
+    next [Done] of its image.  The run-time monitor is more liberal than the model here: a cancelled
+    caller may also return early with its context's error and is then exempt from "answered exactly
+    once"; all other waiting callers are not, and after every [Done] the image must have no entry. *)
+Theorem C20_cancel_is_noop :
+  forall steps c,
+    log (run (steps ++ [Cancel c])) = log (run steps) /\
+    next (run (steps ++ [Cancel c])) = next (run steps) /\
+    forall img, inflight (run (steps ++ [Cancel c])) img = inflight (run steps) img /\
+                waiting img (rev (steps ++ [Cancel c])) = waiting img (rev steps).
+Proof. exact cancel_step. Qed.
+Print Assumptions C20_cancel_is_noop.
+
 (** (c) All package copies ever handed out have pairwise distinct identities (one DeepCopy per
     receiver).  Whether DeepCopy really yields disjoint memory is tested by the aliasing probe. *)
 Theorem C20_private_copies :
@@ -137,9 +152,9 @@ Proof. exact lin_agree_model. Qed.
 Print Assumptions C20_lin_agree_model.
 
 (** The hypotheses are satisfiable by a non-trivial schedule: three callers, two images,
-    joined pulls, an error result, a request right after a broadcast. *)
+    joined pulls, a cancelled waiter, an error result, a request right after a broadcast. *)
 Example C20_wf_example :
-  let steps := [Req 0 0; Req 1 0; Req 2 1; Done 0 true; Req 0 0; Done 1 false; Req 2 0; Done 0 true] in
+  let steps := [Req 0 0; Req 1 0; Req 2 1; Cancel 1; Done 0 true; Req 0 0; Done 1 false; Req 2 0; Done 0 true] in
   wf steps = true /\
   log (run steps) =
     [PullStarted 0 0; PullStarted 1 1;
